@@ -493,6 +493,83 @@ def _scan_error_lemma(ctx, fname):
                      "%s returned %r with an unreadable entry in the listing" % (fname, p.ret), key="backup:readdir-error-swallowed")
 
 
+def lemma_ls_file_dir(ctx):
+    """ls_file_dir (executed, not summarised): the directory scanned for <name>.~N~ siblings is the one get_backup_path and the
+    rename in CopyHandle::new put the backup into -- the *lexical* parent of the path as given (the working directory for a bare
+    name) -- and not some other directory (e.g. the parent of the link's target)."""
+    eng = ctx.engine("libxcp", loop_bound=2)
+    install_backup_env(ctx, eng)
+    S = eng.add_summary
+    front = lambda rx, h: eng.add_summary(rx, h, front=True)
+    some = lambda v: AggV("Option", 1, [v], "Some")
+    none = lambda: AggV("Option", 0, [], "None")
+    empty = z3.Bool("parent_is_empty")
+    cwd = OpaqueV("PathBuf", "cwd", {"which": "cwd"})
+    parent = OpaqueV("Path", "parent", {"which": "parent-of-file", "empty": empty})
+
+    def which(eng, st, v):
+        v = deref_ref(eng, st, v)
+        while isinstance(v, RefV):
+            v = deref_ref(eng, st, v)
+        return v
+    front(r"^(std::env::)?current_dir$", lambda e, st, c, a, d: [Outcome(ok(cwd), events=[Event("current_dir", [], "ok")]),
+                                                                  Outcome(err("std::io::Error"), events=[Event("current_dir", [], "err")])])
+
+    def s_parent(eng, st, callee, args, dty):
+        w = which(eng, st, args[0])
+        if w.attrs.get("which") != "file":
+            return Outcome(some(RefV(Cell(OpaqueV("Path", "parent-of-other", {"which": "parent-of-" + str(w.attrs.get("which")), "empty": z3.BoolVal(False)})))),
+                           events=[Event("parent", [w.attrs.get("which")], None)])
+        return [Outcome(some(RefV(Cell(parent))), events=[Event("parent", ["file"], "some")]),
+                Outcome(none(), events=[Event("parent", ["file"], "none")])]
+    front(r"^(std::path::)?Path::parent$", s_parent)
+    front(r"^(std::path::)?Path::as_os_str$|^<(std::path::)?PathBuf as Deref>::deref$|^<(std::path::)?PathBuf as AsRef<(std::path::)?Path>>::as_ref$|^(std::path::)?PathBuf::as_path$",
+          lambda e, st, c, a, d: Outcome(RefV(Cell(which(e, st, a[0])))))
+    front(r"^(std::ffi::)?OsStr::is_empty$", lambda e, st, c, a, d: Outcome(BoolV(which(e, st, a[0]).attrs.get("empty", z3.BoolVal(False)))))
+
+    def s_resolve(eng, st, callee, args, dty):
+        w = which(eng, st, args[0])
+        r = OpaqueV("PathBuf", "resolved", {"which": "resolved(%s)" % w.attrs.get("which")})
+        return [Outcome(ok(r), events=[Event("resolve", [w.attrs.get("which")], "ok")]), Outcome(err("std::io::Error"), events=[Event("resolve", [], "err")])]
+    front(r"^(std::path::)?Path::canonicalize$|^(std::fs::)?canonicalize::<|^(std::fs::)?read_link::<|^(std::path::)?Path::read_link$|^(std::path::)?absolute::<", s_resolve)
+
+    def s_read_dir(eng, st, callee, args, dty):
+        w = which(eng, st, args[0])
+        return [Outcome(ok(OpaqueV("ReadDir", None, {"items": []})), events=[Event("read_dir", [w.attrs.get("which")], "ok")]),
+                Outcome(err("std::io::Error"), events=[Event("read_dir", [w.attrs.get("which")], "err")])]
+    front(r"^(std::path::)?Path::read_dir$|^(std::fs::)?read_dir::<", s_read_dir)
+    fn = fn_named(eng.funcs, "ls_file_dir")
+    f = OpaqueV("Path", "file", {"which": "file", "name": SStrV(z3.String("file_name"))})
+    paths = eng.run(fn.name, [RefV(Cell(f))], State())
+    ctx.paths += len(paths)
+    seen = set()
+    for p in paths:
+        if p.status != "return":
+            ctx.fail("ls_file_dir: path ends in return", "%s %s" % (p.status, p.msg))
+            continue
+        rd = [e for e in p.trace if e.name == "read_dir"]
+        if any(is_errev(e) for e in p.trace):
+            (ctx.passed if is_err(p.ret) else ctx.fail)("C04/C09: a failing current_dir/read_dir makes the backup scan fail", str(trace_names(p)))
+            continue
+        if not is_ok(p.ret) or len(rd) != 1:
+            ctx.fail("C09: the backup scan lists exactly one directory", str(trace_names(p)))
+            continue
+        par = [e for e in p.trace if e.name == "parent" and e.args[0] == "file"]
+        listed = rd[0].args[0]
+        has_parent = bool(par) and par[-1].ret == "some"
+        for want_parent in (True, False):
+            # the directory the backup is renamed into: the lexical parent, or the working directory when that is empty/absent
+            cond = z3.And(z3.BoolVal(has_parent), z3.Not(empty)) if want_parent else z3.Or(z3.BoolVal(not has_parent), empty)
+            if eng.check(list(p.pc) + [cond])[0]:
+                seen.add(want_parent)
+                want = "parent-of-file" if want_parent else "cwd"
+                (ctx.passed if listed == want else ctx.fail)(
+                    "C09: the directory scanned for existing backups is the one the backup is created in (lexical parent of the destination as given, or the working directory for a bare name)",
+                    "listed %r, backup goes to %r" % (listed, want))
+    (ctx.passed if seen == {True, False} else ctx.fail)("witness: ls_file_dir with and without a parent component", str(seen))
+    ctx.bounds = "one call; the path is abstract (parent present/absent/empty), every call fallible"
+
+
 def lemma_backup_path(ctx):
     """get_backup_path: <file> + ".~" + N + "~" in the same directory."""
     eng = ctx.engine("libxcp", loop_bound=2)
